@@ -14,6 +14,8 @@ pub enum Op {
     Modify { a: usize, ord: usize, price: Option<u32>, vol: Option<u32> },
     Event { a: usize, kind: EvKind, ord: usize, price: Option<u32>, vol: Option<u32> },
     Trading { on: bool },
+    /// the trading switch of ONE asset's book, reached through `Market::get_order_book_mut` (a plain book: same as Trading)
+    TradingAsset { a: usize, on: bool },
     ResetTradeVol,
     /// how: 0 to_string, 1 to_string_pretty, 2 save_json compact, 3 save_json pretty
     Snapshot { how: u8, into_levels: usize, keep: bool, truncate: bool },
